@@ -1667,10 +1667,13 @@ func (a *Authenticator) negotiateSecurity(negotiation *SecurityNegotiation) erro
 		}
 	}
 
-	// Find compatible crypto method - server preference order
+	// Find compatible crypto method - server preference order. As with the
+	// authentication methods, only a cipher this build can actually protect a
+	// stream with (AES-GCM) counts as mutually usable: a legacy name (BLOWFISH,
+	// 3DES) listed ahead of AES must not be picked and then fail the handshake.
 	for _, serverCrypto := range negotiation.ServerConfig.CryptoMethods {
 		for _, clientCrypto := range negotiation.ClientConfig.CryptoMethods {
-			if serverCrypto == clientCrypto {
+			if serverCrypto == clientCrypto && serverCrypto == CryptoAES {
 				negotiation.NegotiatedCrypto = serverCrypto
 				break
 			}
